@@ -8,6 +8,7 @@ they hold for every operator and every element kind at once.
 import MechVerif.Lemmas.Broadcast
 import MechVerif.Model.Scalar
 import MechVerif.Gen.Kernels
+import MechVerif.Gen.OperandArms
 namespace MechVerif.Mat
 open MechVerif.Num
 
@@ -376,3 +377,17 @@ example : evalBinopIR (tableOf "sub") (fun x y => Scalar.intOp .i16 .sub x y)
     (.scalar 10) (.mat ⟨1, 3, [1, 2, 3]⟩) = .ok (.mat ⟨1, 3, [.int 9, .int 8, .int 7]⟩) := by decide
 
 end MechVerif.KernelIR
+
+/-! ### operands that are references to variables (the fallback arms of `impl_mech_binop_fxn!`, as written) -/
+namespace MechVerif.RangeArms
+
+/-- **Whichever of its two operands is a variable, a binary element-wise operator's dispatch receives the operands'
+    values in the order written** (`Gen/OperandArms.lean` is regenerated from src/core/src/stdlib.rs on every run;
+    `C01_fallback_arms_ok` is its `decide` proof). -/
+theorem C01_operand_forms_reach_the_dispatch {α : Type} (f : String × Nat × List Arm)
+    (hf : f ∈ Gen.OperandArms.binopForms) (a b : Opnd α) (href : a.isRef = true ∨ b.isRef = true) :
+    dispatch f.2.2 [a, b] = some [a.value, b.value] := by
+  simp only [Gen.OperandArms.binopForms, List.mem_cons, List.mem_nil_iff, or_false] at hf
+  rcases hf with rfl <;> cases a <;> cases b <;> simp [Opnd.isRef] at href <;> rfl
+
+end MechVerif.RangeArms
